@@ -201,6 +201,51 @@ def guarded_conditions(node: ast.AST, stop: ast.AST | None = None) -> list[tuple
     return out
 
 
+def eval_bool(t: ast.AST, atoms: dict) -> bool | None:
+    """Truth value of a test under an assignment of its atoms (source text of a leaf -> bool); `a != b` is read as `not a == b`,
+    `x not in y` as `not x in y`; a leaf that is not assigned makes the result None unless the other operands decide it."""
+    if isinstance(t, ast.UnaryOp) and isinstance(t.op, ast.Not):
+        r = eval_bool(t.operand, atoms)
+        return None if r is None else not r
+    if isinstance(t, ast.BoolOp):
+        vs = [eval_bool(v, atoms) for v in t.values]
+        if isinstance(t.op, ast.And):
+            return False if any(v is False for v in vs) else (True if all(v is True for v in vs) else None)
+        return True if any(v is True for v in vs) else (False if all(v is False for v in vs) else None)
+    k = ast.unparse(t)
+    if k in atoms:
+        return atoms[k]
+    if isinstance(t, ast.Compare) and len(t.ops) == 1:
+        flip = {ast.NotEq: ast.Eq, ast.NotIn: ast.In, ast.IsNot: ast.Is}.get(type(t.ops[0]))
+        for l, r in ((t.left, t.comparators[0]), (t.comparators[0], t.left)):
+            for op, neg in ((t.ops[0], False),) + (((flip(), True),) if flip else ()):
+                k2 = ast.unparse(ast.Compare(left=l, ops=[op], comparators=[r]))
+                if k2 in atoms:
+                    return atoms[k2] != neg
+            if isinstance(t.ops[0], (ast.In, ast.NotIn, ast.Lt, ast.Gt, ast.LtE, ast.GtE)):
+                break
+        if isinstance(t.ops[0], ast.Eq):
+            k3 = ast.unparse(ast.Compare(left=t.left, ops=[ast.NotEq()], comparators=t.comparators))
+            k4 = ast.unparse(ast.Compare(left=t.comparators[0], ops=[ast.NotEq()], comparators=[t.left]))
+            for kk in (k3, k4):
+                if kk in atoms:
+                    return not atoms[kk]
+    return None
+
+
+def reach_condition(node: ast.AST, stop: ast.AST | None, atoms: dict) -> bool | None:
+    """Is `node` reached (from the start of `stop`'s body, or of the function) under the assignment `atoms`?  The governing `if`s and the
+    guard clauses on the way are evaluated with `eval_bool`; None when one of them is not decided by the assignment."""
+    out = True
+    for t, holds in guarded_conditions(node, stop):
+        v = eval_bool(t, atoms)
+        if v is None:
+            out = None if out is not False else False
+        elif v != holds:
+            return False
+    return out
+
+
 def extra_conditions(node: ast.AST, main: ast.expr | None, allow=None, stop: ast.AST | None = None) -> list[str]:
     """Path conditions of `node` other than `main` holding (and other than those `allow(test, holds)` accepts), rendered
     for a report.  Used by "sole guard" rules: an action that must happen exactly under one condition may not sit under a
